@@ -28,7 +28,8 @@ open Gen.CacheTable (table)
 
 /-- the translator and the model number slots and classes identically -/
 theorem names_agree :
-    Gen.CacheTable.slotNames = CacheSM.slotNames ∧ Gen.CacheTable.classNames = CacheSM.classNames := by decide
+    Gen.CacheTable.slotNames = CacheSM.slotNames ∧ Gen.CacheTable.classNames = CacheSM.classNames ∧
+    Gen.CacheTable.settingNames = CacheSM.settingNames := by decide
 
 /-- `Module.train(False)` on a module in training mode reaches `_clear_cache()` -/
 theorem train_clears_when_leaving_training : table.trainClears true false = true := by decide
@@ -77,26 +78,69 @@ theorem hooks_registered :
     table.hookClearsWholeMemo = true := by decide
 
 /-- memo keys honour the call arguments (`mean_cache[nan policy]`), except `cholesky_factor`, whose argument is a
-function of the parameters alone -/
+function of the parameters alone; and they honour the *settings* the memoised value depends on:
+  * the only setting that selects between two representations of a memo value is `fast_pred_samples`, for
+    `covar_cache` / `fantasy_covar_cache` of the interpolated strategy (the `(inside_root, None)` / `(None, root)` pair),
+  * every read of such an entry, under every settings cell, re-validates it (pops and recomputes the entry when it
+    holds the other representation),
+  * any other setting a memoised body tests is `detach_test_caches` (graph only) or `fast_pred_var` (which solver
+    produces the same matrix; number of probe vectors). -/
 theorem memo_keys_honour_arguments :
     table.memoKeyHonoursArgs = true ∧
-    ∀ c ∈ table.classes, ∀ d ∈ c.cached, d.ignoreArgs = true → d.slot = sChol := by decide
+    (∀ c ∈ table.classes, ∀ d ∈ c.cached, d.ignoreArgs = true → d.slot = sChol) ∧
+    (∀ c ∈ table.classes, ∀ d ∈ c.cached,
+        d.variantOn = (if c.id == cInterp && (d.slot == sCovar || d.slot == sFantCovar) then some gFastPredSamples else none)) ∧
+    (∀ cls ∈ strategyClasses, ∀ w nan, ∀ c ∈ Cell.all, ∀ op ∈ table.access cls w nan c, op.unrevalidated = false) ∧
+    (∀ c ∈ table.classes, ∀ d ∈ c.cached, ∀ g ∈ d.bodySettings,
+        g = gDetach ∨ g = gFastPredVar ∨ d.variantOn = some g) := by decide +kernel
 
 /-- the default strategy reads `covar_cache` exactly under `fast_pred_var` without `skip_posterior_variances`
 (with `observation_nan_policy` at its default) -/
 theorem covar_cache_read_guard : ∀ fpv skip, table.defaultReadsCovarCache fpv skip false = (fpv && !skip) := by decide
 
+/-- (finite form of the next theorem: all cells, all strategy classes) -/
+theorem covar_cache_invisible_cells :
+    ∀ c ∈ Cell.all, c.fpv = false → ∀ cls ∈ [cDefault, cInterp], sCovar ∉ memoReads table cls c := by
+  decide +kernel
+
 /-- A cache filled under accuracy-degrading settings stays invisible to the calls that must not see it: with the
 default / interpolated strategy a call without `fast_pred_var` does not read `covar_cache` (so a truncated root
 left there by an earlier `degradedRoot` call cannot reach a plain prediction). -/
-theorem covar_cache_invisible_without_fast_pred_var (c : Cell) (cls : Nat) (hc : c.fpv = false) (hs : (cls == cSGPR) = false) :
-    sCovar ∉ memoReads table cls c := by
-  unfold memoReads
-  rw [hs, hc]
-  cases c <;> simp [table, sMean, sCovar]
+theorem covar_cache_invisible_without_fast_pred_var (c : Cell) (cls : Nat) (hc : c.fpv = false)
+    (hs : cls = cDefault ∨ cls = cInterp) : sCovar ∉ memoReads table cls c :=
+  covar_cache_invisible_cells c (Cell.mem_all c) hc cls (by rcases hs with h | h <;> simp [h])
+
+/-- **What a prediction reads / creates / pops is derived from the source.**  The access function generated from the
+call graph of the four prediction strategies (`exact_prediction → exact_predictive_mean / exact_predictive_covar →
+@cached names / pop_from_cache / super()`, with the settings guards on the way) equals the specification `accessModel`
+for every strategy class, for plain and WISKI (fantasy) strategies, default and non-default `observation_nan_policy`,
+and all 512 settings cells. -/
+theorem readCreate_generated_eq_model :
+    ∀ cls ∈ strategyClasses, ∀ w nan, ∀ c ∈ Cell.all, table.access cls w nan c = accessModel cls w nan c := by
+  decide +kernel
+
+/-- … stated for an arbitrary settings cell -/
+theorem readCreate_generated_eq_model' (cls : Nat) (hcls : cls ∈ strategyClasses) (w nan : Bool) (c : Cell) :
+    table.access cls w nan c = accessModel cls w nan c :=
+  readCreate_generated_eq_model cls hcls w nan c (Cell.mem_all c)
+
+/-- what `get_fantasy_strategy` reads from the source strategy and which memo entries the new strategy is born with,
+derived from the source, equal the specification -/
+theorem fantasy_readCreate_generated_eq_model :
+    (∀ cls ∈ strategyClasses, ∀ c ∈ Cell.all, table.fantasyAccess cls c = fantasyAccessModel cls c) ∧
+    (∀ cls ∈ strategyClasses, table.fantasyBorn cls = fantasyBornModel cls) := by decide +kernel
+
+/-- only the two WISKI caches are computed from other memo entries (so that for every other name "read" = "return
+the entry, or compute it from the parameters and data and store it") -/
+theorem cached_bodies_read_no_memo :
+    ∀ c ∈ table.classes, ∀ d ∈ c.cached, d.deps ≠ [] → d.slot = sFantMean ∨ d.slot = sFantCovar := by decide
+
+/-- the constructors that turn a tensor argument into a parameter (`inducing_points` of the variational strategies
+and of `InducingPointKernel`) register a copy: two models built from the same tensor share no parameter storage -/
+theorem constructors_copy_parameters : cVarBase ∈ table.ctorClones ∧ cIPK ∈ table.ctorClones := by decide
 
 /-- all facts the invariant needs hold of the table generated from the current source -/
-theorem tableOK_generated : TableOK table := by decide
+theorem tableOK_generated : TableOK table := by decide +kernel
 
 /-! ### The invariant -/
 
@@ -215,15 +259,12 @@ theorem inv_step (op : Op) : Inv (step T s op).next := by
       split
       · rename_i hacc
         -- the slots read while building the fantasy model belong to the kind and none is slot 0
-        have hreads : ∀ sl ∈ fantasyReads s ++ (if s.kind.isExact then attrsActive T s.kind s.training else []),
+        have hreads : ∀ sl ∈ fantasyReads T s ++ (if s.kind.isExact then attrsActive T s.kind s.training else []),
             sl ∈ slotsOf s.kind ∧ (sl == sStrat) = false := by
           intro sl hsl
           rw [List.mem_append] at hsl
           rcases hsl with h | h
-          · unfold fantasyReads at h
-            cases hk : s.kind <;> cases hd : s.stratDefault <;>
-              simp [hk, hd, Kind.isExact, stratClassOf, kernelStrategy, cDefault, cInterp, cSGPR] at h <;>
-              (try rcases h with h | h | h) <;> (try rcases h with h | h) <;> subst_vars <;> decide
+          · exact fantasyReads_in_slots hT s sl h
           · cases hk : s.kind.isExact with
             | false => simp [hk] at h
             | true =>
@@ -238,7 +279,7 @@ theorem inv_step (op : Op) : Inv (step T s op).next := by
           apply hI.cls htr
           simp only at hs
           cases hq : touchAll s.store (fun _ => newEntry s false)
-              (fantasyReads s ++ (if s.kind.isExact then attrsActive T s.kind s.training else [])) sStrat with
+              (fantasyReads T s ++ (if s.kind.isExact then attrsActive T s.kind s.training else [])) sStrat with
           | none => rw [hq] at hs; simp at hs
           | some e =>
             rcases touchAll_cases _ _ _ _ _ hq with h1 | ⟨_, hm, _⟩
@@ -297,22 +338,16 @@ theorem inv_fantasy_model (op : Op) (f : State) (h : (step T s op).fantasy = som
       · rename_i hacc
         simp only [Option.some.injEq] at h
         subst h
-        unfold fantasyModel
         refine ⟨rfl, ?_, ?_, ?_⟩
         · intro sl e he
-          simp only at he ⊢
-          cases hk : s.kind <;> cases hd : s.stratDefault <;>
-            simp [hk, hd, Kind.isExact, stratClassOf, kernelStrategy, cDefault, cInterp, cSGPR] at he ⊢ <;>
-            (repeat' split at he) <;> simp_all [slotsOf, sStrat, sMean, sCovar, sInterpInner, sInterpResp, sKMat, sKInvRoot] <;> omega
+          exact fantasyBorn_in_slots s.kind (Kind.mem_all _) s.stratDefault (Cell.mem_bools _) sl
+            (fantasyModel_store s sl e he).1
         · intro _ sl e he
-          simp only at he ⊢
-          repeat' split at he
-          all_goals first
-            | (simp at he; done)
-            | (have : e = ⟨s.pv, s.dv + 1, false⟩ := by simpa using he.symm
-               subst this; exact ⟨rfl, fun _ => rfl⟩)
+          have := (fantasyModel_store s sl e he).2
+          subst this
+          exact ⟨rfl, fun _ => rfl⟩
         · intro htr _
-          simp only at htr ⊢
+          simp only [fantasyModel] at htr ⊢
           cases hk : s.kind.isExact with
           | false => simp [hk]
           | true =>
@@ -385,6 +420,45 @@ theorem history_answers_current_generated (k : Kind) (ops : List Op) :
     ∀ a ∈ (run table (init k) ops).2, a.current = true :=
   history_answers_current table tableOK_generated k ops
 
+/-! ### Two objects built from the same tensors -/
+
+/-- **two_object_frame.**  In a history over two model objects, what one object answers and the state it ends in are
+those of the object alone under its own operations: operations on the sibling are invisible.  (In the model this is
+the product construction; for the real objects it rests on `constructors_copy_parameters` and is checked by the
+two-object correspondence.) -/
+theorem two_object_frame (T : Table) (a b : State) (ops : List (Bool × Op)) :
+    (run2 T (a, b) ops).1.2 = (run T b (opsOf true ops)).1 ∧
+    ((run2 T (a, b) ops).2.filter (·.1 == true)).map (·.2) = (run T b (opsOf true ops)).2 ∧
+    (run2 T (a, b) ops).1.1 = (run T a (opsOf false ops)).1 ∧
+    ((run2 T (a, b) ops).2.filter (·.1 == false)).map (·.2) = (run T a (opsOf false ops)).2 := by
+  induction ops generalizing a b with
+  | nil => simp [run2, run, opsOf]
+  | cons x ops ih =>
+    obtain ⟨w, op⟩ := x
+    cases w with
+    | true =>
+      obtain ⟨h1, h2, h3, h4⟩ := ih a (step T b op).next
+      simp [opsOf] at h1 h2 h3 h4
+      cases hq : (step T b op).answer <;> simp [run2, run, opsOf, hq, List.filter_append, h1, h2, h3, h4]
+    | false =>
+      obtain ⟨h1, h2, h3, h4⟩ := ih (step T a op).next b
+      simp [opsOf] at h1 h2 h3 h4
+      cases hq : (step T a op).answer <;> simp [run2, run, opsOf, hq, List.filter_append, h1, h2, h3, h4]
+
+/-- … hence the second object's next call, after any interleaving of operations on both objects, is answered as by a
+freshly constructed model with the second object's own parameters and data. -/
+theorem two_object_history_independent (T : Table) (hT : TableOK T) (ka kb : Kind) (ops : List (Bool × Op))
+    (c : Cell) (prior : Bool) :
+    (call T (run2 T (init ka, init kb) ops).1.2 c prior).2 =
+      (call T (run2 T (init ka, init kb) ops).1.2.rebuilt c prior).2 := by
+  rw [(two_object_frame T (init ka) (init kb) ops).1]
+  exact history_independent T hT kb (opsOf true ops) c prior
+
+theorem two_object_history_independent_generated (ka kb : Kind) (ops : List (Bool × Op)) (c : Cell) (prior : Bool) :
+    (call table (run2 table (init ka, init kb) ops).1.2 c prior).2 =
+      (call table (run2 table (init ka, init kb) ops).1.2.rebuilt c prior).2 :=
+  two_object_history_independent table tableOK_generated ka kb ops c prior
+
 /-- **fantasy_frame.**  Creating a fantasy model (or failing to) leaves the source model as it was: same mode,
 same versions, same data attributes, every live cache entry untouched; the only change is that entries the
 construction had to read may have been *created* — from the current versions. -/
@@ -406,7 +480,7 @@ theorem fantasy_frame (T : Table) (hT : TableOK T) (s : State) (o : FantasyOutco
   cases o with
   | ok =>
     by_cases hacc : fantasyAccepts T s = true
-    · have hn : (step T s (.fantasy .ok)).next = { s with store := touchAll s.store (fun _ => newEntry s false) (fantasyReads s ++ (if s.kind.isExact then attrsActive T s.kind s.training else [])) } := by
+    · have hn : (step T s (.fantasy .ok)).next = { s with store := touchAll s.store (fun _ => newEntry s false) (fantasyReads T s ++ (if s.kind.isExact then attrsActive T s.kind s.training else [])) } := by
         simp [step, hacc]
       rw [hn]
       refine ⟨rfl, rfl, rfl, rfl, rfl, rfl, rfl, rfl, ?_, ?_⟩
@@ -443,6 +517,12 @@ example : ((run table (init .sgpr) demo).2.map fun a => (a.pv, a.dv, a.used.leng
     [(0, 0, 5), (0, 1, 5), (1, 1, 5), (2, 1, 5)] := by decide
 example : (run table (init .exact) demo).2.all (·.current) = true := by decide
 
+/-- Non-vacuity of the two-object statements: the second object keeps its memo while the first one is trained. -/
+example : ((run2 table (init .svgp, init .svgp)
+      [(true, .eval), (true, .predict .default), (false, .step), (false, .step), (true, .predict .fastPredVar)]).2.map
+        fun a => (a.1, a.2.pv, a.2.current)) = [(true, 0, true), (true, 0, true)] := by decide
+example : (run2 table (init .svgp, init .svgp) [(false, .step), (false, .step)]).1.1.pv = 2 := by decide
+
 /-- Without `self.prediction_strategy = None` in `set_train_data` the model *does* produce a stale answer on
 `eval; predict; set_train_data; predict` — the table fact is what the theorem rests on. -/
 theorem stale_without_set_train_data_clear :
@@ -464,6 +544,21 @@ theorem stale_without_legacy_conversion_clear :
         [.loadStateDict true, .eval, .predict .default, .predict .default]).2.map (·.current)) = [false, false] ∧
     ((run table (init .svgp)
         [.loadStateDict true, .eval, .predict .default, .predict .default]).2.map (fun a => (a.current, a.pv))) = [(true, 2), (true, 2)] := by decide
+
+/-- Without the re-validation of the two-representation `covar_cache` (`pop_from_cache` when the entry holds the
+representation the other `fast_pred_samples` setting asks for) a KISS-GP model answers the second of two predictions
+that differ in `fast_pred_samples` from the representation built for the first — in both orders; with the generated
+table it re-computes the entry. -/
+theorem stale_representation_without_revalidation :
+    ((run { table with access := fun cls w nan c => (table.access cls w nan c).map MemoOp.dropRevalidation } (init .kiss)
+        [.eval, .predict .fastPredBoth, .predict .fastPredVar]).2.map (fun a => a.used.map (·.slot))) =
+      [[sStrat, sMean, sCovarS, sKMat], [sStrat, sMean, sCovarS, sKMat]] ∧
+    ((run { table with access := fun cls w nan c => (table.access cls w nan c).map MemoOp.dropRevalidation } (init .kiss)
+        [.eval, .predict .fastPredVar, .predict .fastPredBoth]).2.map (fun a => a.used.map (·.slot))) =
+      [[sStrat, sMean, sCovar, sKMat], [sStrat, sMean, sCovar, sKMat]] ∧
+    ((run table (init .kiss)
+        [.eval, .predict .fastPredBoth, .predict .fastPredVar, .predict .fastPredSamples]).2.map (fun a => a.used.map (·.slot))) =
+      [[sStrat, sMean, sCovarS, sKMat], [sStrat, sMean, sCovar, sKMat], [sStrat, sMean, sCovarS, sKMat]] := by decide
 
 /-- Likewise without the `_clear_cache()` call in `Module.train`: `eval; predict; train; step; eval; predict`. -/
 theorem stale_without_train_clear :
